@@ -415,6 +415,11 @@ func (cs *clientStream) doHttpCall(transport http.RoundTripper, req *http.Reques
 
 	reply, err := transport.RoundTrip(req.WithContext(cs.ctx))
 	if err != nil {
+		if err == io.EOF {
+			// e.g. the server closed the connection without sending a reply;
+			// callers of RecvMsg must not mistake that for a normal end of stream
+			err = io.ErrUnexpectedEOF
+		}
 		onReady(statusFromContextError(err), nil)
 		return
 	}
